@@ -173,8 +173,11 @@ static bool run_once(double dt, const double y0) {
     } else if (ret == NAUNET_FAIL) {
         S.fail++;
         if (last_ok && !M.reinit_failed) { snprintf(buf, sizeof buf, "returned FAIL although the last integrator answer was a success (%d)", M.last_ret); why = buf; }
-        char line[64]; snprintf(line, sizeof line, "    y[0] = %13.7e;", y0);
-        if (!why && log.find(line) == std::string::npos) { snprintf(buf, sizeof buf, "returned FAIL but the error record lacks the initial state line '%s'", line); why = buf; }
+        char line[64];
+        for (int i = 0; i < NEQUATIONS && !why; i++) {   /* the whole initial state: every equation, also the temperature */
+            snprintf(line, sizeof line, "    y[%d] = %13.7e;", i, y0);
+            if (log.find(line) == std::string::npos) { snprintf(buf, sizeof buf, "returned FAIL but the error record lacks the initial state line '%s'", line); why = buf; }
+        }
     } else { snprintf(buf, sizeof buf, "Solve returned %d (neither SUCCESS nor FAIL)", ret); why = buf; }
     if (!why && !second_ok) { snprintf(buf, sizeof buf, "a second Solve on the same object (integrator always succeeding) returned %d and integrated %.17g of the requested %.17g", ret2, y2[0] - y0b, dt); why = buf; }
     if (!why && g_bad_config) { snprintf(buf, sizeof buf, "the integrator was configured with other %s than Init was given", g_bad_config & 1 ? "tolerances" : "step limit"); why = buf; }
